@@ -1048,3 +1048,15 @@ VARIANTS += [
     V('C12-M32', 'M', ('C12',), TH, 'Thread.run', r"try:\n\s+cause = type\(e\)\(tb\)\n\s+except Exception:\n(?:\s+#[^\n]*\n)*\s+cause = RuntimeError\(tb\)\n", "cause = type(e)(tb)\n", ('C12-1',), note='D21 shape: user class constructor in the handler, unguarded'),
     V('C12-E32', 'E', ALL, TH, 'Thread.run', r"cause = RuntimeError\(tb\)", "cause = Exception(tb)", note='another total class for the fallback'),
 ]
+
+VARIANTS += [
+    V('C01-M30', 'M', ('C01', 'C03'), ST, 'fifo_stream', r"(y = fut\.result\(\)\n\s+)except Exception as e:", r"\1except BaseException as e:", ('C01-3', 'C03-9'), note='seeded C01-r4m2 shape'),
+    V('C01-M31', 'M', ('C16',), ST, 'async_fifo_stream', r"(y = await t\n\s+)except Exception as e:", r"\1except (Exception, asyncio.CancelledError) as e:", ('C16-1c',), note='async sibling of C01-M30'),
+    V('C01-M32', 'M', ('C01', 'C08'), SA, 'AsyncParmapper.__aiter__', r"executor = ThreadPoolExecutor\(\n\s+self\._concurrency,\n\s+initializer=self\._executor_initializer,\n\s+initargs=self\._executor_init_args,\n\s+thread_name_prefix=self\._name \+ '-thread',\n\s+\)", "executor = _SHARED_POOL", ('C01-9', 'C08-3'), note='seeded C01-r4m1 shape on the async parmapper'),
+]
+
+VARIANTS += [
+    V('C12-M33', 'M', ('C12',), TH, 'Thread', r"self\._future_: concurrent\.futures\.Future = concurrent\.futures\.Future\(\)(.*?)(\n    def run\(self\):.*?\n)(        try:\n            if self\._target is not None:)", r"self._future_: concurrent.futures.Future = None\1\2        self._future_ = concurrent.futures.Future()\n\3", ('C12-12',), note='D22 shape: future created by the new thread'),
+    V('C12-M34', 'M', ('C12',), TH, 'Thread.run', r"(\n        )try:\n(            if self\._target is not None:)", r"\1self._future_ = concurrent.futures.Future()\1try:\n\2", ('C12-12',), note='run() replaces the future made by the constructor'),
+    V('C12-E33', 'E', ALL, TH, 'Thread', r"self\._future_: concurrent\.futures\.Future = concurrent\.futures\.Future\(\)", "self._future_ = concurrent.futures.Future()", note='annotation dropped'),
+]
